@@ -120,6 +120,36 @@ func Lifecycle(rng *wh.Rng, thorough bool) []Scenario {
 		}
 		out = append(out, Scenario{Handlers: []HandlerSpec{plain(0)}, Prog: p, Seed: rng.Next(), Conf: true, WaitMs: 8000, Tag: "life/rh-vs-shutdown/" + op})
 	}
+	// a handler function that outlives CloseTimeout: the router is closed by a caller / closes itself after cancel / after the
+	// last handler was stopped; the Close times out - and Run must still return (nil), a second Run is refused
+	for _, trig := range []string{"close", "cancel", "stop"} {
+		p := prog("add:0", "run", "wrun", "emit:0:1", "whs:1")
+		switch trig {
+		case "close":
+			p = append(p, "close:2", "wclose")
+		case "cancel":
+			p = append(p, "cancel", "wev:wce")
+		case "stop":
+			p = append(p, "stop:0", "wev:wce")
+		}
+		p = append(p, "wrr", "run2", "gate", "whe:1", "close:1", "wclose")
+		out = append(out, Scenario{Handlers: []HandlerSpec{{GateAt: 1}}, Prog: p, Seed: rng.Next(), Conf: true, WaitMs: 8000, Tag: "life/timeout/" + trig})
+	}
+	// Stop of a handler whose function is still busy: its Stopped() closes all the same and the other handlers keep processing
+	for n := 2; n <= 3; n++ {
+		hs, p := addAll(n, func(h int) HandlerSpec {
+			if h == 0 {
+				return HandlerSpec{GateAt: 1}
+			}
+			return plain(h)
+		})
+		p = append(p, "run", "wrun", "emit:0:1", "whs:1", "stop:0")
+		for h := 1; h < n; h++ {
+			p = append(p, fmt.Sprintf("emit:%d:3", h))
+		}
+		p = append(p, fmt.Sprintf("whe:%d", 3*(n-1)), "wsd:0", "gate", fmt.Sprintf("whe:%d", 3*(n-1)+1), "close:1", "wclose", "wrr")
+		out = append(out, Scenario{Handlers: hs, Prog: p, Seed: rng.Next(), Conf: n == 2, WaitMs: 8000, Tag: fmt.Sprintf("life/stop-busy/%d", n)})
+	}
 	// a second Run returns an error; RunHandlers on a router that is not running returns an error
 	out = append(out, Scenario{Handlers: []HandlerSpec{plain(0)}, Seed: rng.Next(), Conf: true, Tag: "life/second-run",
 		Prog: prog("add:0", "run", "wrun", "run2", "emit:0:1", "whe:1", "run2", "close:1", "wclose", "wrr")})
